@@ -46,47 +46,59 @@ theorem nameUnesc_eq_spec (c : Char) : nameUnesc c = unescChar c := by
         simp [List.lookup, hn, hr, ht, e1, e2, e3]
 
 /-- the loop of `_decode_attr_name` reads a string body exactly as the SPEC says Nix does -/
-theorem decodeNameBody_eq_spec (s : Text) : decodeNameBody s = decodeBody s := by
+theorem decodeNameBodyF_eq_spec (s : Text) : ∀ n, s.length < n → decodeNameBodyF n s = decodeBody s := by
   induction s using decodeBody.induct with
-  | case1 => simp [decodeNameBody, decodeBody]
-  | case2 => simp [decodeNameBody, decodeBody]
+  | case1 => intro n hn; cases n with | zero => omega | succ n => simp [decodeNameBodyF, decodeBody]
+  | case2 => intro n hn; cases n with | zero => omega | succ n => simp [decodeNameBodyF, decodeBody]
   | case3 c cs ih =>
-    rw [decodeNameBody.eq_def, decodeBody]
-    simp [ih, nameUnesc_eq_spec]
-  | case4 x => rw [decodeNameBody.eq_def, decodeBody]; simp
-  | case5 x =>
-    rw [decodeNameBody.eq_def, decodeBody]
-    simp
-  | case6 => simp [decodeNameBody, decodeBody]
+    intro n hn; cases n with
+    | zero => omega
+    | succ n =>
+      rw [decodeNameBodyF.eq_def, decodeBody]
+      simp [ih n (by simp at hn; omega), nameUnesc_eq_spec]
+  | case4 x => intro n hn; cases n with | zero => omega | succ n => rw [decodeNameBodyF.eq_def, decodeBody]; simp
+  | case5 x => intro n hn; cases n with | zero => omega | succ n => rw [decodeNameBodyF.eq_def, decodeBody]; simp
+  | case6 => intro n hn; cases n with | zero => omega | succ n => simp [decodeNameBodyF, decodeBody]
   | case7 c cs h1 h2 ih =>
-    rw [decodeNameBody.eq_def, decodeBody]
-    · simp [h2, ih]
-      intro a b
-      rcases h2 with h | h <;> contradiction
-    · exact fun h => h1 h
+    intro n hn; cases n with
+    | zero => omega
+    | succ n =>
+      rw [decodeNameBodyF.eq_def, decodeBody]
+      · simp [h2, ih n (by simp at hn ⊢; omega)]
+        intro a b
+        rcases h2 with h | h <;> contradiction
+      · exact fun h => h1 h
   | case8 c cs h1 h2 ih =>
-    rw [decodeNameBody.eq_def, decodeBody]
-    · have h3 := not_or.mp h2
-      have h4 : ¬ c = '{' := fun h => h1 h
-      simp [ih, h3, h4]
-    · exact fun h => h1 h
+    intro n hn; cases n with
+    | zero => omega
+    | succ n =>
+      rw [decodeNameBodyF.eq_def, decodeBody]
+      · have h3 := not_or.mp h2
+        have h4 : ¬ c = '{' := fun h => h1 h
+        simp [ih n (by simp at hn; omega), h3, h4]
+      · exact fun h => h1 h
   | case9 c cs h1 h2 h3 h4 h5 h6 ih =>
-    have hb : c ≠ '\\' := by
-      intro h; cases cs with
-      | nil => exact h1 h rfl
-      | cons a b => exact h2 a b h rfl
-    have hd : c ≠ '$' := by
-      intro h; cases cs with
-      | nil => exact h5 h rfl
-      | cons a b => exact h6 a b h rfl
-    have hq : c ≠ '"' := fun h => h3 h
-    rw [decodeNameBody.eq_def, decodeBody]
-    · simp only [hb, hq, hd, if_false, false_and]
-      cases cs with
-      | nil => simp [decodeBody]
-      | cons f more => simp [ih]
-    all_goals first | assumption | (intros; simp_all)
+    intro n hn; cases n with
+    | zero => omega
+    | succ n =>
+      have hb : c ≠ '\\' := by
+        intro h; cases cs with
+        | nil => exact h1 h rfl
+        | cons a b => exact h2 a b h rfl
+      have hd : c ≠ '$' := by
+        intro h; cases cs with
+        | nil => exact h5 h rfl
+        | cons a b => exact h6 a b h rfl
+      have hq : c ≠ '"' := fun h => h3 h
+      rw [decodeNameBodyF.eq_def, decodeBody]
+      · simp only [hb, hq, hd, if_false, false_and]
+        cases cs with
+        | nil => simp [decodeBody]
+        | cons f more => simp [ih n (by simp at hn ⊢; omega)]
+      all_goals first | assumption | (intros; simp_all)
 
+theorem decodeNameBody_eq_spec (s : Text) : decodeNameBody s = decodeBody s :=
+  decodeNameBodyF_eq_spec s _ (Nat.lt_succ_self _)
 
 theorem nameIdent_quote (rest : Text) : nameIdent ('"' :: rest) = false := by
   have : nameIdentStart '"' = false := by decide
